@@ -23,4 +23,8 @@ MUTANTS += [
     # keying the removal on the requested width instead of the option is harmless once the analysis never asks for zero spaces
     # between adjacent tokens: no alarm
     ("ws-zero-by-action-ok", W, "        if self.number_of_spaces == 0:\n            lTokens = [lTokens[0], lTokens[2]]", "        if dAction[\"spaces\"] == 0:\n            lTokens = [lTokens[0], lTokens[2]]"),
+    # seeded/C10c_minimum_spaces_delegated: '>N' between adjacent tokens asks for N spaces, which the same rule rejects afterwards
+    ("ws-gt-minimum-is-n", "vsg/rules/whitespace_between_tokens.py", "            return int(self.number_of_spaces[1:]) + 1\n        elif self.number_of_spaces_is_plus():", "            return int(self.number_of_spaces[1:])\n        elif self.number_of_spaces_is_plus():"),
+    ("ws-lt-asks-n", "vsg/rules/whitespace_between_tokens.py", "        iSpaces = int(self.number_of_spaces[1:]) - 1\n", "        iSpaces = int(self.number_of_spaces[1:])\n"),
+    ("ws-gte-strict", "vsg/rules/whitespace_between_tokens.py", "        iSpaces = int(self.number_of_spaces[2:])\n        iWhitespaces = extract_length_of_whitespace(oToi)\n        if iWhitespaces < iSpaces:\n            self.create_violation(oToi, iSpaces)", "        iSpaces = int(self.number_of_spaces[2:])\n        iWhitespaces = extract_length_of_whitespace(oToi)\n        if iWhitespaces < iSpaces:\n            self.create_violation(oToi, iSpaces - 1)"),
 ]
